@@ -212,4 +212,41 @@ theorem bare_sound (dt lex : Str)
   · simp only [beq_self_eq_true, e7, e8, e9, Bool.true_and, Bool.false_and, Bool.false_or, Bool.or_false] at h ⊢
     exact (matchB_iff _ _).mpr (hE hn _ ((matchB_iff _ _).mp h))
 
+/-- the shorthand test is only ever true for the four datatypes with a Turtle shorthand -/
+theorem shorthand_dt (dt lex : Str) (h : shorthand dt lex = true) :
+    dt = xsdInteger ∨ dt = xsdDecimal ∨ dt = xsdDouble ∨ dt = xsdBoolean := by
+  unfold shorthand at h
+  simp only [Bool.or_eq_true, Bool.and_eq_true, beq_iff_eq] at h
+  rcases h with ((⟨h, _⟩ | ⟨h, _⟩) | ⟨h, _⟩) | ⟨h, _⟩
+  · exact Or.inl h
+  · exact Or.inr (Or.inl h)
+  · exact Or.inr (Or.inr (Or.inl h))
+  · exact Or.inr (Or.inr (Or.inr h))
+
+/-- FULL statement of bare-literal safety from the four token inclusions -/
+theorem bare_sound_full (dt lex : Str)
+    (hI : ∀ w, Matches Gen.TTL_INTEGER w → Matches TurtleTokens.INTEGER w)
+    (hB : ∀ w, Matches Gen.TTL_BOOLEAN w → Matches TurtleTokens.BOOLEAN w)
+    (hD : ∀ w, Matches Gen.TTL_DECIMAL w → Matches TurtleTokens.DECIMAL w)
+    (hE : ∀ w, Matches Gen.TTL_DOUBLE w → Matches TurtleTokens.DOUBLE w)
+    (h : shorthand dt lex = true) : turtleTokenOk dt lex = true := by
+  rcases shorthand_dt dt lex h with rfl | rfl | rfl | rfl
+  · exact bare_sound _ lex hI hB (fun _ => hD) (fun _ => hE) (Or.inl rfl) h
+  · -- decimal: replay `bare_sound`'s case with the inclusion itself
+    have e4 : (xsdDecimal == xsdInteger) = false := by decide
+    have e5 : (xsdDecimal == xsdDouble) = false := by decide
+    have e6 : (xsdDecimal == xsdBoolean) = false := by decide
+    unfold shorthand at h
+    unfold turtleTokenOk
+    simp only [beq_self_eq_true, e4, e5, e6, Bool.true_and, Bool.false_and, Bool.false_or, Bool.or_false] at h ⊢
+    exact (matchB_iff _ _).mpr (hD _ ((matchB_iff _ _).mp h))
+  · have e7 : (xsdDouble == xsdInteger) = false := by decide
+    have e8 : (xsdDouble == xsdDecimal) = false := by decide
+    have e9 : (xsdDouble == xsdBoolean) = false := by decide
+    unfold shorthand at h
+    unfold turtleTokenOk
+    simp only [beq_self_eq_true, e7, e8, e9, Bool.true_and, Bool.false_and, Bool.false_or, Bool.or_false] at h ⊢
+    exact (matchB_iff _ _).mpr (hE _ ((matchB_iff _ _).mp h))
+  · exact bare_sound _ lex hI hB (fun _ => hD) (fun _ => hE) (Or.inr (Or.inl rfl)) h
+
 end SophiaProofs.Lemmas.Pretty
